@@ -61,7 +61,7 @@ CHECKS = {
  "C12": dict(
    category="model_checking",
    text="Proc.tla is the process-level machine (phases, diagnostics, exit status, output file incl. a stale one "
-        "from an earlier run); TLC checks Atomic/NeverSilent on it. TLC enumerates base program x 33 single-point "
+        "from an earlier run); TLC checks Atomic/NeverSilent on it. TLC enumerates base program x 37 single-point "
         "corruption kinds x position x wrapping (plain, .if 1, .else part, macro body, .repeat, .scope) x output "
         "type x stale file planted; each case runs the real naken_asm executable and TLC accepts the observed "
         "(status, diagnostics, file state) iff it is a final state of Proc.",
